@@ -99,6 +99,35 @@ def _schedule_text(sg, tab):
     return f"{int(tab.mem_area == MemArea.Sram)}|{tab.refs(sg.output_tensors)}|{';'.join(ops)}"
 
 
+def _branches(sg, mem_area):
+    """which branches of the model one extract_live_ranges_from_schedule call exercises (evidence only)"""
+    from ethosu.vela.operation import Op
+    from ethosu.vela.tensor import MemArea
+
+    out = set()
+    for so in sg.sched_ops:
+        ci = sg.schedule.cost_map[so]
+        casc = sg.schedule.cascades.get(ci.cascade, None)
+        if casc is not None:
+            out.add("cascade_member")
+            if mem_area == MemArea.Sram and so in casc.buffers:
+                out.add("rolling_buffer")
+        if ci.cascade != 0 and casc is None:
+            out.add("cascade_number_without_info")
+        n = len(ci.buffered_weight_tensors)
+        if n == 1:
+            out.add("single_buffer")
+        if n > 1:
+            out.add("double_buffer")
+        if any(t.pre_buffer for t in ci.buffered_weight_tensors):
+            out.add("pre_buffer")
+        if so.op_type == Op.Memcpy:
+            out.add("memcpy")
+        if so.op_type.is_elementwise_op():
+            out.add("elementwise")
+    return sorted(out)
+
+
 def _real_ranges(lr_graph, tab):
     pos = {id(lr): i for i, lr in enumerate(lr_graph.lrs)}
     out = []
@@ -149,7 +178,8 @@ def install():
                                  "real": {"ct": int(r.current_time), "times": times, "ranges": real},
                                  "ncasc": len({int(sg.schedule.cost_map[so].cascade) for so in sg.sched_ops} - {0}),
                                  "nbuf": sum(len(sg.schedule.cost_map[so].buffered_weight_tensors) for so in sg.sched_ops),
-                                 "nfused": sum(1 for lr in r.lrs if len(lr.tensors) > 1)})
+                                 "nfused": sum(1 for lr in r.lrs if len(lr.tensors) > 1),
+                                 "branches": _branches(sg, target_mem_area)})
             except Exception:
                 _errors.append(traceback.format_exc()[-1200:])
         return r
@@ -188,7 +218,10 @@ def install():
                                      "line": f"lrcpu ct={int(ct0)} T={tab.text()} descend={int(descend)} "
                                              f"outs={outs} P={'~'.join(passes)}",
                                      "real": {"ct": int(r.current_time), "passes": times, "ranges": real},
-                                     "nfused": sum(1 for lr in r.lrs if len(lr.tensors) > 1)})
+                                     "nfused": sum(1 for lr in r.lrs if len(lr.tensors) > 1),
+                                     "branches": sorted({"cpu_descend" if descend else "cpu_no_descend"} |
+                                                        ({"variable_tensor"} if any(t.is_variable for t in r.ranges) else set()) |
+                                                        ({"npu_callout"} if any(call(c) is not None for c in sg.cascaded_passes) else set()))})
                 if ok and target_mem_type_set & {MemType.Scratch, MemType.Scratch_fast}:
                     # cps.time / op_info.time_index are overwritten by later calls (the Permanent_CPU allocation does
                     # not descend into the NPU subgraphs): keep the values that belong to these ranges
@@ -327,6 +360,208 @@ def extra(res):
     return out
 
 
+# ------------------------------------------------------------------------------------------------
+# Function-level correspondence on generated stub schedules (reaches what compiled networks do not:
+# variable tensors, assertion failures of fuse_ranges/add_tensor, cascade numbers without CascadeInfo,
+# non-contiguous cascades, write-protected / multi-consumer / scalar / foreign-format fuse candidates)
+
+
+class _O:
+    """attribute bag (hashable by identity, unlike SimpleNamespace)"""
+
+    def __init__(self, **kw):
+        self.__dict__.update(kw)
+
+
+def _stub_tensor(rng, name, pool, areas, types):
+    from ethosu.vela.data_type import DataType
+    from ethosu.vela.tensor import Tensor, TensorFormat, TensorPurpose
+
+    if pool and rng.random() < 0.12:
+        t = rng.choice(pool).clone("_c%d" % len(pool))            # equivalent tensor (same equivalence id)
+    else:
+        shape = [] if rng.random() < 0.06 else [1, rng.randint(1, 6), rng.randint(1, 6), rng.choice([1, 3, 8, 16])]
+        t = Tensor(shape, rng.choice([DataType.int8, DataType.int8, DataType.int16]), name)
+        t.format = rng.choice([TensorFormat.NHWC, TensorFormat.NHWC, TensorFormat.NHCWB16])
+    t.purpose = rng.choice([TensorPurpose.FeatureMap] * 7 + [TensorPurpose.Weights, TensorPurpose.FSBias, TensorPurpose.Virtual,
+                                                               TensorPurpose.LUT])
+    t.mem_area = rng.choice(areas)
+    t.mem_type = rng.choice(types)
+    t.ifm_write_protected = rng.random() < 0.12
+    t.is_variable = rng.random() < 0.1
+    return t
+
+
+def _stub_npu_sg(rng, pool, areas, types, name):
+    from ethosu.vela.data_type import DataType
+    from ethosu.vela.operation import Op
+    from ethosu.vela.shape4d import Shape4D
+    from ethosu.vela.tensor import MemArea, MemType, Tensor, TensorPurpose
+
+    def new(nm):
+        t = _stub_tensor(rng, nm, pool, areas, types)
+        pool.append(t)
+        return t
+
+    n = rng.randint(1, 7)
+    ops, cost_map, cascades = [], {}, {}
+    cur = rng.choice(pool) if pool and rng.random() < 0.7 else new(name + "_in")
+    casc_no, casc_left = 0, 0
+    next_casc = 1
+    for i in range(n):
+        kind = rng.choice([Op.Conv2DBias, Op.Add, Op.Add, Op.Mul, Op.AvgPool, Op.Memcpy, Op.Minimum])
+        ifm = cur if rng.random() < 0.8 else rng.choice(pool)
+        ifm2 = None
+        if kind.is_elementwise_op() and rng.random() < 0.6:
+            ifm2 = rng.choice(pool) if rng.random() < 0.7 else new(f"{name}_c{i}")
+        ofm = new(f"{name}_t{i}") if rng.random() < 0.9 else rng.choice(pool)
+        if rng.random() < 0.6 and ifm.shape != []:
+            # make the fuse candidate plausible: same shape / dtype / format, one consumer
+            ofm.set_all_shapes(list(ifm.shape))
+            ofm.dtype = ifm.dtype
+            ofm.format = ifm.format
+            ofm.purpose, ofm.mem_area, ofm.mem_type = ifm.purpose, ifm.mem_area, ifm.mem_type
+
+        def sh(t):
+            return Shape4D(t.shape) if len(t.shape) == 4 else Shape4D([1, 1, 1, 1])
+
+        pop = _O(ofm=ofm, ifm=ifm, ifm2=ifm2, ofm_shapes=[sh(ofm)], ifm_shapes=[sh(ifm)] + ([sh(ifm2)] if ifm2 is not None else []),
+                 memory_function=Op.VariableTensorWrite if rng.random() < 0.05 else None)
+        if kind == Op.Memcpy and rng.random() < 0.04:
+            pop.ifm = None          # malformed: _get_ifm_to_fuse dereferences it (AttributeError) unless the op is in a cascade
+        wt = []
+        if kind == Op.Conv2DBias:
+            w = new(f"{name}_w{i}")
+            w.purpose = TensorPurpose.Weights
+            wt = [w]
+        ps = _O(inputs=[ifm] + ([ifm2] if ifm2 is not None else []) + wt, outputs=[ofm],
+                intermediates=[rng.choice(pool)] if rng.random() < 0.1 else [], ifm_tensor=ifm, name=f"{name}_ps{i}")
+        so = _O(parent_ps=ps, parent_op=pop, op_type=kind, ifm=_O(dtype=ifm.dtype), index=i)
+        if casc_left == 0 and rng.random() < 0.35:
+            casc_no, casc_left = (next_casc if rng.random() < 0.85 else rng.randint(1, next_casc)), rng.randint(1, 3)
+            next_casc += 1
+        cascade = casc_no if casc_left > 0 else 0
+        if casc_left > 0:
+            casc_left -= 1
+        buffered = []
+        if kind == Op.Conv2DBias and rng.random() < 0.6:
+            for j in range(rng.choice([1, 1, 2])):
+                b = Tensor([1, 1, 1, 16 * rng.randint(1, 8)], DataType.uint8, f"{name}_w{i}_buffer{j}")
+                b.purpose, b.mem_area, b.mem_type = TensorPurpose.Weights, rng.choice([MemArea.Sram] * 4 + areas), MemType.Scratch_fast
+                buffered.append(b)
+            buffered[0].pre_buffer = rng.random() < 0.5
+        info = _O(cascade=cascade, buffered_weight_tensors=buffered, ofm_depth_slices=list(range(rng.randint(2, 6))), time_index=None)
+        cost_map[so] = info
+        if cascade != 0 and rng.random() < 0.9:
+            ci = cascades.setdefault(cascade, _O(buffers={}, start=i, end=i))
+            ci.end = i
+            if rng.random() < 0.6:
+                ci.buffers[so] = _O(elements=(lambda k=rng.randint(1, 64) * 16: k))
+        ops.append(so)
+        cur = ofm
+    outs = [cur] if rng.random() < 0.8 else rng.sample(pool, min(len(pool), 2))
+    # consumer / producer lists: truthful with probability 0.8, else arbitrary
+    truthful = rng.random() < 0.8
+    for t in pool:
+        readers = sum(1 for so in ops if any(x is t for x in so.parent_ps.inputs))
+        if truthful:
+            t.consumer_list = [None] * (readers + (1 if any(x is t for x in outs) else 0))
+            t.ops = [None]
+        else:
+            t.consumer_list = [None] * rng.randint(0, 2)
+            t.ops = [None] * rng.randint(1, 2)
+    return _O(sched_ops=ops, schedule=_O(cost_map=cost_map, cascades=cascades), output_tensors=outs, name=name, cascaded_passes=[])
+
+
+def stub_records(rng, n):
+    """n instances: random stub (sub)graphs through the REAL extraction functions, with the abstract request."""
+    from ethosu.vela import live_range
+    from ethosu.vela.operation import Op
+    from ethosu.vela.tensor import MemArea, MemType
+
+    recs = []
+    for k in range(n):
+        areas = rng.choice([[MemArea.Sram], [MemArea.Sram, MemArea.Dram], [MemArea.Dram, MemArea.Sram, MemArea.Shram]])
+        types = rng.choice([[MemType.Scratch, MemType.Scratch_fast], [MemType.Scratch, MemType.Scratch_fast, MemType.Permanent_NPU],
+                            [MemType.Scratch_fast], [MemType.Scratch, MemType.Permanent_CPU]])
+        target_area = rng.choice(areas)
+        target_types = set(rng.sample(types, rng.randint(1, len(types))))
+        pool = []
+        ct0 = rng.choice([0, 0, 2, 5])
+        graph = live_range.LiveRangeGraph()
+        graph.current_time = ct0
+        tab = _Table(target_area, target_types)
+        try:
+            if k % 2 == 0:
+                sg = _stub_npu_sg(rng, pool, areas, types, f"s{k}")
+                line_of = lambda: f"lrnpu ct={ct0} T={tab.text()} S={sched}"     # noqa: E731
+                sched = _schedule_text(sg, tab)
+                kind = "npu"
+                try:
+                    r = live_range.extract_live_ranges_from_schedule(sg, target_area, target_types, graph)
+                    real = {"ct": int(r.current_time), "times": [int(sg.schedule.cost_map[so].time_index) for so in sg.sched_ops],
+                            "ranges": _real_ranges(r, tab)}
+                except AssertionError:
+                    real = {"error": "err:assert"}
+                except AttributeError:
+                    real = {"error": "err:attribute"}
+                recs.append({"kind": kind, "sg": sg.name, "line": line_of(), "real": real, "stub": True,
+                             "branches": _branches(sg, target_area) + (["stub_error_" + real["error"][4:]] if "error" in real else [])})
+            else:
+                passes, subs = [], []
+                for i in range(rng.randint(1, 5)):
+                    ins = rng.sample(pool, min(len(pool), rng.randint(0, 2)))
+                    outs = []
+                    for j in range(rng.randint(0, 2)):
+                        t = _stub_tensor(rng, f"c{k}_{i}_{j}", pool, areas, types)
+                        pool.append(t)
+                        outs.append(t)
+                    op = None
+                    if rng.random() < 0.35:
+                        sub = _stub_npu_sg(rng, pool, areas, types, f"c{k}n{i}")
+                        subs.append(sub)
+                        op = _O(type=Op.CustomNpuOp, attrs={"subgraph": sub})
+                    elif rng.random() < 0.8:
+                        op = _O(type=Op.Relu, attrs={})
+                    passes.append(_O(inputs=ins, outputs=outs, intermediates=[rng.choice(pool)] if pool and rng.random() < 0.1 else [],
+                                     passes=[_O(ops=[op] if op is not None else [])], time=0, name=f"c{k}p{i}"))
+                sg = _O(cascaded_passes=passes, output_tensors=rng.sample(pool, min(len(pool), rng.randint(0, 2))), name=f"c{k}")
+                descend = MemType.Permanent_CPU not in target_types
+                call = _npu_call(sg)
+                ptxt = []
+                for cps in passes:
+                    sub = call(cps)
+                    ptxt.append("^".join([tab.refs(cps.inputs), tab.refs(cps.intermediates), tab.refs(cps.outputs),
+                                          "-" if sub is None else _schedule_text(sub, tab)]))
+                outs_txt = tab.refs(sg.output_tensors)
+                try:
+                    r = live_range.extract_live_ranges_from_cascaded_passes(sg, target_area, target_types, graph)
+                    times = []
+                    for cps in passes:
+                        sub = call(cps)
+                        times.append((int(cps.time), [int(sub.schedule.cost_map[so].time_index) for so in sub.sched_ops]
+                                      if (sub is not None and descend) else []))
+                    real = {"ct": int(r.current_time), "passes": times, "ranges": _real_ranges(r, tab)}
+                except AssertionError:
+                    real = {"error": "err:assert"}
+                except AttributeError:
+                    real = {"error": "err:attribute"}
+                recs.append({"kind": "cpu", "sg": sg.name, "stub": True,
+                             "line": f"lrcpu ct={ct0} T={tab.text()} descend={int(descend)} outs={outs_txt} P={'~'.join(ptxt)}",
+                             "real": real,
+                             "branches": sorted({"cpu_descend" if descend else "cpu_no_descend"} |
+                                                ({"variable_tensor"} if any(t.is_variable for t in pool) else set()) |
+                                                ({"npu_callout"} if subs else set()) |
+                                                {b for sub in subs for b in _branches(sub, target_area)} |
+                                                ({"stub_error_" + real["error"][4:]} if "error" in real else set()))})
+        except Exception:
+            raise
+    del _records[:]
+    del _errors[:]
+    _arena_graphs.clear()
+    return recs
+
+
 def _canon_model(ans):
     """model answer -> comparable dict"""
     if not ans.startswith("ok "):
@@ -347,9 +582,16 @@ def stage(ck, outs, prefix="liverange_"):
     """Model = real on every recorded instance; Lean Spec on the real ranges of every compiled network."""
     import common
     import re
+    import time
 
+    t_stage = time.time()
     inst, owners = [], []
     spec_lines, spec_owner = [], []
+    nstub = 6000 if ck.thorough else 1500
+    stub_owner = {"idx": -1, "profile": "stub", "seed": ck.seed, "opts": [], "desc": "generated stub schedule (no network)"}
+    for r in stub_records(ck.rng, nstub):
+        inst.append(r)
+        owners.append(stub_owner)
     for o in outs:
         ex = o.get("extra")
         if not ex:
@@ -365,6 +607,7 @@ def stage(ck, outs, prefix="liverange_"):
     answers = ck.model([r["line"] for r in inst]) if inst else []
     disagreements = []
     nontrivial = set()
+    seen_branches = set()
     for r, o, ans in zip(inst, owners, answers):
         m = _canon_model(ans)
         real = r["real"]
@@ -375,11 +618,18 @@ def stage(ck, outs, prefix="liverange_"):
             ck.count(prefix + "instances_with_buffered_weights")
         if r.get("nfused"):
             ck.count(prefix + "instances_with_fused_ranges")
-        if len(real["ranges"]) >= 3:
+        for br in r.get("branches", []):
+            ck.count(prefix + "branch_" + br)
+            seen_branches.add(br)
+        if len(real.get("ranges", [])) >= 3:
             nontrivial.add(r["line"])
         bad = None
-        if "error" in m:
-            bad = f"model rejects ({m['error']}) what the code accepted"
+        if r.get("stub"):
+            ck.count(prefix + "stub_instances")
+        if "error" in real or "error" in m:
+            ck.count(prefix + "error_outcomes")
+            if real.get("error") != m.get("error"):
+                bad = f"outcome: model {m.get('error', 'ok')} real {real.get('error', 'ok')}"
         elif m["ct"] != real["ct"]:
             bad = f"current_time: model {m['ct']} real {real['ct']}"
         elif r["kind"] == "npu" and m["times"] != real["times"]:
@@ -391,7 +641,7 @@ def stage(ck, outs, prefix="liverange_"):
             bad = f"ranges (tensor:lr:start:end:size): model/real differ at {diff} (lengths {len(m['ranges'])}/{len(real['ranges'])})"
         if bad:
             disagreements.append((r, o, bad))
-        elif m.get("wf") != "1":
+        elif m.get("wf") != "1" and not r.get("stub"):
             ck.violation("abstract schedule violates consumersTruthful (consumer_list shorter than the readers in the schedule): "
                          f"hypothesis of fused_ranges_safe does not hold for network {o['idx']} {o['profile']} {o['opts']}",
                          {"profile": o["profile"], "seed": o["seed"], "index": o["idx"], "opts": o["opts"], "network": o["desc"],
@@ -433,6 +683,11 @@ def stage(ck, outs, prefix="liverange_"):
                       "request": r["line"][:6000], "real": r["real"], "model": answers[inst.index(r)][:3000],
                       "spec_rejects_same_network": key in rejected},
                      found_input=key in rejected)
-    return {"liverange_instances": len(inst), "liverange_distinct_nontrivial": len(nontrivial),
+    all_branches = ["cascade_member", "rolling_buffer", "single_buffer", "double_buffer", "pre_buffer", "memcpy", "elementwise",
+                    "cpu_descend", "cpu_no_descend", "npu_callout", "variable_tensor", "cascade_number_without_info",
+                    "stub_error_assert", "stub_error_attribute"]
+    return {"liverange_stage_s": round(time.time() - t_stage, 2),
+            "liverange_unreached_branches": [b for b in all_branches if b not in seen_branches],
+            "liverange_instances": len(inst), "liverange_distinct_nontrivial": len(nontrivial),
             "liverange_spec_networks": len(spec_lines), "liverange_disagreements": len(disagreements),
             "liverange_spec_rejections": len(rejected)}
